@@ -74,3 +74,23 @@ Definition agree (cs : ccase) : bool :=
       | _ => false
       end
   end.
+
+(** *** Property oracles: the monitors of the theorems, evaluated on the implementation's call log
+    and result (no model involved) *)
+From PK Require Import Auth.C04Facts.
+
+Definition outcome_result {A B} (f : A -> B) (o : outcome A) : option (result B N) :=
+  match o with
+  | Finished (Ok a) => Some (Ok (f a))
+  | Finished (Err e) => Some (Err e)
+  | Cancelled => None
+  end.
+
+Definition c04_ok (cs : ccase) : bool :=
+  match cs with
+  | CMake c q log _ _ impl =>
+      c04_judge_mc (mc_opts q) (run_monitor (c04_step (mc_opts q)) c04_init log) (outcome_result mo_fields impl)
+  | CGet c q log _ _ impl =>
+      c04_judge_ga (ga_opts q) (run_monitor (c04_step (ga_opts q)) c04_init log) (outcome_result go_fields impl)
+  | CInfo _ _ _ => true
+  end.
